@@ -5,6 +5,10 @@
 id=$1; src=$2; suite=${3:-suite}
 export GOFLAGS=-mod=mod GOPROXY=off GOSUMDB=off
 wt=/tmp/cf-$id
+# the demo lives in the package named by its package clause (root package, db/ or v2/)
+demodir=.; testpkg=.
+grep -q '^package db' $src/zz_demo_test.go && { demodir=db; testpkg=./db/; }
+[ -f $src/MODULE_V2 ] && { demodir=v2; testpkg=.; }
 git -C /repo worktree remove --force $wt 2>/dev/null
 git -C /repo worktree add -q $wt HEAD || exit 2
 cp /repo/cmd/legacydump/legacydump $wt/cmd/legacydump/ 2>/dev/null
@@ -12,14 +16,14 @@ cd $wt
 res() { echo "CONFIRM $id: $*"; }
 git apply $src/patch.diff || { res "patch does not apply"; exit 1; }
 go build ./... || { res "does not compile"; exit 1; }
-cp $src/zz_demo_test.go . 
-go test -vet=off -count=1 -run 'TestDemo' . > /tmp/cf-$id.demo-with.log 2>&1 && { res "demo PASSES with the change (bad)"; bad=1; } || res "demo fails with the change (good)"
-rm zz_demo_test.go
+cp $src/zz_demo_test.go $demodir/
+(cd $( [ -f $src/MODULE_V2 ] && echo v2 || echo . ) && go test -vet=off -count=1 -run 'TestDemo' $testpkg) > /tmp/cf-$id.demo-with.log 2>&1 && { res "demo PASSES with the change (bad)"; bad=1; } || res "demo fails with the change (good)"
+rm $demodir/zz_demo_test.go
 if [ "$suite" = suite ]; then
   go test -vet=off -count=1 . ./cache ./fastnode ./keyformat ./internal/... ./db/... > /tmp/cf-$id.suite.log 2>&1 && res "existing suite passes with the change (good)" || { res "existing suite FAILS with the change (bad)"; bad=1; }
 fi
 git checkout -q -- . 
-cp $src/zz_demo_test.go .
-go test -vet=off -count=1 -run 'TestDemo' . > /tmp/cf-$id.demo-without.log 2>&1 && res "demo passes without the change (good)" || { res "demo FAILS without the change (bad)"; bad=1; }
+cp $src/zz_demo_test.go $demodir/
+(cd $( [ -f $src/MODULE_V2 ] && echo v2 || echo . ) && go test -vet=off -count=1 -run 'TestDemo' $testpkg) > /tmp/cf-$id.demo-without.log 2>&1 && res "demo passes without the change (good)" || { res "demo FAILS without the change (bad)"; bad=1; }
 cd /; git -C /repo worktree remove --force $wt
 [ -z "$bad" ] && res "ALL CONFIRMED" || res "NOT CONFIRMED"
